@@ -4,10 +4,11 @@ package reflectx
 
 // TypeImplements(t, a): the reflect type t implements the interface type denoted by a (a typed nil pointer to the
 // interface, or an instance). Defined by reflect.Type.Implements (A-REFLECT).
-//@ spec func TypeImplements(t reflect.Type, a any) bool
+//@ spec func TypeImplements(t reflect.Type, a any) bool = RImplements(t, RElemType(RDynType(a)))
 
 //@ func IsTypeImplement
-//@ trusted
+//@ terminates
+//@ requires [interface-pointer-given] typ != nil && _interface != nil
 //@ assigns nothing
 //@ ensures [is-implements] result == TypeImplements(typ, _interface)
 
